@@ -206,7 +206,9 @@ func TestC03(t *testing.T) {
 			r.Label(l)
 		}
 		r.LabelIf(c.Abs, "AbsoluteCircularRef")
+		vstat.InFlight("C03", "expandspec", c)
 		f, acyclic := oracleC03(c)
+		vstat.ClearInFlight("C03")
 		r.LabelIf(acyclic, "acyclic")
 		if cl.Cyclic || (acyclic && cl.NDocs >= 2) {
 			r.NonTrivial(c.Graph.Canon(), c)
